@@ -353,7 +353,9 @@ class XPathContext:
         """
         if varnames is None:
             varnames = []
-        iterators = [x(self) for x in selectors]
+        # Each selector has a focus of its own (a suspended selector has moved its own),
+        # the variables are shared
+        iterators = [x(self.__copy__()) for x in selectors]
         dimension = len(iterators)
         prod = [None] * dimension
         max_index = dimension - 1
@@ -375,7 +377,7 @@ class XPathContext:
             else:
                 if not k:
                     return
-                iterators[k] = selectors[k](self)
+                iterators[k] = selectors[k](self.__copy__())
                 k -= 1
 
     ##
